@@ -111,6 +111,10 @@ _even, _jobs = (lambda n: n + n % 2), (lambda n: (n + 1) // 2)
 ZOO = [
     ("am.tsp", _am("tsp"), _env("tsp"), "ar", "env", True),
     ("am.cvrp", _am("cvrp"), _env("cvrp"), "ar", "env", True),
+    # policies CONSTRUCTED with a non-default softmax temperature (no temperature kwarg at call time): every decode type,
+    # beam search included, must score with the policy's own distribution softmax(logits / T)
+    ("am.tsp.T0.5", _am("tsp", temperature=0.5), _env("tsp"), "ar", "env", True),
+    ("am.cvrp.T2", _am("cvrp", temperature=2.0), _env("cvrp"), "ar", "env", True),
     ("pomo.cvrp", _am("cvrp", use_graph_context=False, normalization="instance"), _env("cvrp"), "ar", "env", True),
     ("am.sdvrp", _am("sdvrp"), _env("sdvrp"), "ar", "env", True),
     ("am.cvrptw", _am("cvrptw"), _env("cvrptw"), "ar", "own", True),
@@ -179,6 +183,12 @@ def tcall(name, inp, *a, **kw):
 
 
 # ----------------------------------------------------------------------------------------------- oracle
+def ptemp(pol):
+    """The policy's construction-time softmax temperature (used whenever the call passes none)."""
+    t = getattr(pol, "temperature", 1.0)
+    return float(t) if isinstance(t, (int, float)) else 1.0
+
+
 def step_logp(pol, logits, mask, temp=1.0, top_k=0):
     """Own masked, clipped, temperature-scaled, (top-k filtered) and normalised step distribution."""
     x = logits.detach().clone()
@@ -311,7 +321,7 @@ def c11_ar(pid, pol, env, td, ms, key, poly=0):
             if acts.shape[0] != n * S:
                 fail(f"C11.{pid}.gen.shape", f"actions rows {acts.shape[0]} != batch*starts {n * S} ({info})", inp)
                 continue
-            rp = replay(pol, env, flat, acts, forced=forced, dec_starts=poly, temp=kw.get("temperature", 1.0), top_k=kw.get("top_k", 0))
+            rp = replay(pol, env, flat, acts, forced=forced, dec_starts=poly, temp=kw.get("temperature", ptemp(pol)), top_k=kw.get("top_k", 0))
             if not rp.ok:
                 fail(f"C11.{pid}.gen.feasible-complete", f"infeasible action / not done / superfluous step ({info}, {tag})", inp)
                 continue
@@ -406,7 +416,7 @@ def own_beam(pol, env, td, first, W):
         cur = env.step(cur)["next"]
         hist, score, tie = a0[:, None], torch.zeros(n * W).double(), torch.zeros(n, dtype=torch.bool)
         while not cur["done"].all() and hist.size(1) < 200:
-            l = step_logp(pol, pol.decoder(cur, hidden, 0)[0], cur["action_mask"])
+            l = step_logp(pol, pol.decoder(cur, hidden, 0)[0], cur["action_mask"], ptemp(pol))
             N = l.size(-1)
             top = (score[:, None] + l).view(n, W * N).topk(W + 1, 1)
             tie |= ~((top.values[:, W - 1] - top.values[:, W]) >= TIE)
@@ -436,7 +446,7 @@ def c13(pid, pol, env, td, ms, key):
             continue
         acts, first, flat = oa["actions"], rec["a"], expand(td, W)
         inp = small(td, acts, first_moves=first, **info)
-        rp = replay(pol, env, flat, acts, forced=True) if acts.shape[0] == n * W else None
+        rp = replay(pol, env, flat, acts, forced=True, temp=ptemp(pol)) if acts.shape[0] == n * W else None
         if rp is None or not rp.ok:
             fail(f"C13.{pid}.beam.feasible-complete", f"a returned beam is infeasible / incomplete / missing ({info})", inp)
             continue
@@ -453,7 +463,7 @@ def c13(pid, pol, env, td, ms, key):
             if not tie[b] and sets[b] != {tuple(s.tolist()) for s in hist[b]}:
                 fail(f"C13.{pid}.beam.topk-matches-oracle", f"instance {b}: kept beams {sorted(sets[b])} != own beam search {hist[b].tolist()} ({info})", inp)
         best = rp.reward.view(W, n).max(0).values
-        rb = replay(pol, env, td, ob["actions"], forced=True)
+        rb = replay(pol, env, td, ob["actions"], forced=True, temp=ptemp(pol))
         ok = rb.valid and close(ob["reward"], best) and close(rb.reward, best) and close(ob["log_likelihood"], rb.lp.sum(1))
         if not (ok and all(tuple(ob["actions"][b].tolist()) in sets[b] for b in range(n))):
             fail(f"C13.{pid}.beam.select-best-is-max", f"select_best result {ob['reward'].tolist()} is not the best beam {best.tolist()} (or its actions / log-likelihood are not that beam's) ({info})", inp)
